@@ -36,8 +36,10 @@ thread_local! {
 
 /// run `call` once normally (`warm`: lets the callee set up whatever per-thread state it keeps)
 /// and then again inside the context; returns the second result. `call` must catch its own
-/// panics (use `engine::guard`) and must be callable twice. None = the context thread died.
-pub fn run_in<R: Send + 'static>(ctx: Ctx, call: impl Fn() -> R + Send + Sync + 'static) -> Option<R> {
+/// panics (use `engine::guard`) and must be callable twice. Ok(None) = the context thread died
+/// without delivering a result; Err(()) = the thread could not be started at all (resource
+/// exhaustion on the machine: the caller skips the context, that is no verdict).
+pub fn run_in<R: Send + 'static>(ctx: Ctx, call: impl Fn() -> R + Send + Sync + 'static) -> Result<Option<R>, ()> {
     let out: Arc<Mutex<Option<R>>> = Arc::new(Mutex::new(None));
     let out2 = out.clone();
     let call = Arc::new(call);
@@ -67,7 +69,8 @@ pub fn run_in<R: Send + 'static>(ctx: Ctx, call: impl Fn() -> R + Send + Sync + 
             }
         }
     });
-    let _ = h.ok()?.join();
+    let Ok(h) = h else { return Err(()) };
+    let _ = h.join();
     let r = out.lock().unwrap().take();
-    r
+    Ok(r)
 }
